@@ -62,7 +62,7 @@ def write_replay(pid, rec, info):
         h = rec["_h"]
         lines.append(f"replay_cmd: {VERIF}/bin/vcheck --replay {path}")
         lines.append(f"harness: {h.full}")
-        test, out = (None, "") if info.setdefault("playbacks", set()) & {rec["name"]} else kani_run.concrete_playback(h)
+        test, out = (None, "") if info.setdefault("playbacks", set()) & {rec["name"]} else kani_run.concrete_playback(h, failed_checks=rec["_r"].get("failed_checks"))
         info["playbacks"].add(rec["name"])
         if test is None and not out:
             lines.append("(concrete playback already produced for another instantiation of this obligation in this run)")
